@@ -196,13 +196,19 @@ var cur atomic.Pointer[Run]
 // NewRun must be called on the bubble's root goroutine.
 func NewRun(t *Tape) *Run {
 	r := &Run{Tape: t, MaxSteps: 20000, in: make(chan msg, 4096), rootG: goid(), Probes: map[string]int{}}
+	newest.Store(r)
 	r.fp = 14695981039346656037
 	return r
 }
 
 // Install makes r the run seen by the shims.
 func (r *Run) Install()   { cur.Store(r) }
-func (r *Run) Uninstall() { cur.CompareAndSwap(r, nil) }
+func (r *Run) Uninstall() { cur.CompareAndSwap(r, nil); newest.CompareAndSwap(r, nil) }
+
+// newest is the run created last (by NewRun, on its root goroutine), whether
+// or not the scheduler has been started yet: set-up code of a workload runs
+// before Install.
+var newest atomic.Pointer[Run]
 
 // Active returns the installed run if the calling goroutine is under its
 // scheduler's control (not the root, run not finished or aborted), else nil.
@@ -221,6 +227,27 @@ func Active() *Run {
 
 // Current returns the installed run regardless of goroutine.
 func Current() *Run { return cur.Load() }
+
+// OnRoot reports whether the caller is the root goroutine of the installed run.
+//
+//go:norace
+func OnRoot() bool {
+	r := newest.Load()
+	return r != nil && goid() == r.rootG
+}
+
+// RootLockStuck is called by the mutex shims when the root goroutine (set-up,
+// clean-up and final checks of a workload, where no task runs any more) needs
+// a mutex that stays locked after every other goroutine had time to run: a
+// lock that was left locked for good. The run is failed as a deadlock and the
+// root goroutine is unwound by a panic that ExecOne recovers.
+func RootLockStuck(what string) {
+	r := newest.Load()
+	if r != nil {
+		r.Fail("deadlock", "the workload's root goroutine waits for "+what+" that no goroutine will ever release: it was left locked (by a call that returned or was abandoned without unlocking)")
+	}
+	panic("zsim: " + what + " was left locked")
+}
 
 // Step is the global event sequence number (advanced by the scheduler only).
 //
